@@ -96,4 +96,8 @@ theorem belief_stays_in_sync (s : St) (hf : s.fx.f8a = true) (hU : s.failU = [])
     (hc : NodupNames s.cfg.paths) (hne : s.cfg.paths ≠ []) : Sync' (iteration s).priv :=
   (iteration_faults s hf hU hs hc hne).1
 
+/-- an empty configured set releases the watcher in that very iteration, also after failures -/
+theorem empty_set_always_releases (s : St) (h : s.cfg.paths = []) : (iteration s).watcher = none ∧ (iteration s).localSet = [] :=
+  empty_set_releases s h
+
 end Props.C13
